@@ -96,8 +96,11 @@ class VecEval:
                 self.assign(s.target, v)
                 self.block(s.body)
         elif isinstance(s, ast.AugAssign) and type(s.op) in _BIN:
-            cur = self.expr(ast.Name(id=s.target.id, ctx=ast.Load())) if isinstance(s.target, ast.Name) else None
-            if cur is None:
+            if isinstance(s.target, ast.Name):
+                cur = self.expr(ast.Name(id=s.target.id, ctx=ast.Load()))
+            elif isinstance(s.target, ast.Subscript) and isinstance(s.target.value, ast.Name):
+                cur = self.expr(ast.Subscript(value=s.target.value, slice=s.target.slice, ctx=ast.Load()))
+            else:
                 raise Unsupported('augmented assignment target')
             self.assign(s.target, _ew(_BIN[type(s.op)], cur, self.expr(s.value)))
         elif isinstance(s, ast.Pass):
@@ -153,6 +156,10 @@ class VecEval:
             raise Unsupported(f'name {e.id}')
         if isinstance(e, ast.Tuple):
             return tuple(self.expr(x) for x in e.elts)
+        if isinstance(e, ast.List):
+            return [self.expr(x) for x in e.elts]
+        if isinstance(e, ast.JoinedStr):
+            return 'str'
         if isinstance(e, ast.Slice):
             return slice(self.expr(e.lower) if e.lower is not None else None, self.expr(e.upper) if e.upper is not None else None,
                          self.expr(e.step) if e.step is not None else None)
@@ -200,6 +207,8 @@ class VecEval:
                     r = (left is right) if isinstance(op, ast.Is) else (left is not right)
                     if right is None or left is None:
                         r = (left is None and right is None) if isinstance(op, ast.Is) else not (left is None and right is None)
+                elif isinstance(op, (ast.In, ast.NotIn)) and isinstance(right, (tuple, list, str)) and not isinstance(left, list):
+                    r = (left in right) if isinstance(op, ast.In) else (left not in right)
                 elif type(op) in _CMP:
                     r = _ew(_CMP[type(op)], left, right)
                 else:
@@ -222,8 +231,17 @@ class VecEval:
                 hi = self.expr(e.slice.upper) if e.slice.upper is not None else None
                 st = self.expr(e.slice.step) if e.slice.step is not None else None
                 return SelfSlice(lo, hi, st)
+            if base_txt in ('self', 'self.data') and not isinstance(e.slice, ast.Slice):
+                i_ = self.expr(e.slice)
+                if isinstance(i_, slice):
+                    return SelfSlice(i_.start, i_.stop, i_.step)
+                raise Unsupported('subscript of self')
             base = self.expr(e.value)
             if isinstance(base, (list, tuple)):
+                if not isinstance(e.slice, ast.Slice):
+                    i_ = self.expr(e.slice)
+                    if isinstance(i_, slice) and isinstance(base, list):
+                        return list(base[i_])
                 if isinstance(e.slice, ast.Slice):
                     lo = self.expr(e.slice.lower) if e.slice.lower is not None else None
                     hi = self.expr(e.slice.upper) if e.slice.upper is not None else None
@@ -249,6 +267,12 @@ class VecEval:
             base = self.expr(e.value) if not (isinstance(e.value, ast.Name) and e.value.id in ('np', 'numpy', 'self', 'pa', 'pd')) else None
             if isinstance(base, list) and e.attr == 'size':
                 return len(base)
+            if isinstance(base, list) and e.attr == 'dtype':
+                d_ = Stub()
+                d_.kind = 'b' if base and all(isinstance(x, bool) for x in base) else 'i'
+                return d_
+            if isinstance(base, slice) and e.attr in ('start', 'stop', 'step'):
+                return getattr(base, e.attr)
             if isinstance(base, Stub) and hasattr(base, e.attr):
                 return getattr(base, e.attr)
             raise Unsupported(f'attribute {ast.unparse(e)}')
@@ -269,6 +293,31 @@ class VecEval:
                     return [None if mk else x for x, mk in zip(v, m)]
                 return list(v)
             raise Unsupported('array of a non-vector')
+        if fn == 'isinstance' and len(e.args) == 2:
+            v = self.expr(e.args[0])
+            names = [ast.unparse(x).split('.')[-1] for x in (e.args[1].elts if isinstance(e.args[1], ast.Tuple) else [e.args[1]])]
+            if isinstance(v, bool):
+                kinds = {'bool', 'bool_'}
+            elif isinstance(v, int):
+                kinds = {'int', 'Integral', 'integer', 'Number', 'Real'}
+            elif isinstance(v, slice):
+                kinds = {'slice'}
+            elif isinstance(v, list):
+                kinds = {'ndarray', 'Iterable', 'Sequence', 'Sized', 'Collection'}       # integer / boolean vectors are modelled as numpy arrays
+            elif v is None:
+                kinds = set()
+            else:
+                raise Unsupported('isinstance of an unmodelled value')
+            return any(n_ in kinds for n_ in names)
+        if fn in ('pd.isna', 'pd.isnull', 'pandas.isna') and len(e.args) == 1:
+            v = self.expr(e.args[0])
+            return _ew(lambda a, b: a is None or (isinstance(a, float) and a != a), v, 0)
+        if fn in ('np.nonzero', 'numpy.nonzero', 'np.flatnonzero') and len(e.args) == 1:
+            v = self.expr(e.args[0])
+            if isinstance(v, list):
+                pos = [k for k, m in enumerate(v) if m]
+                return pos if fn.endswith('flatnonzero') else (pos,)
+            raise Unsupported('nonzero of a non-vector')
         if fn in ('np.isscalar', 'numpy.isscalar') and e.args:
             return not isinstance(self.expr(e.args[0]), (list, tuple))
         if isinstance(e.func, ast.Attribute) and isinstance(e.func.value, ast.Name) and e.func.value.id == 'self' and fn not in ('self.take',) and self.func.cls is not None:
@@ -283,14 +332,36 @@ class VecEval:
                         raise
                     return ret.value
                 return None
+        if fn == 'self.take' and getattr(self, 'inline_take', False) and self.func.cls is not None:
+            ci, mem = self.P.lookup(self.func.cls, 'take')
+            if mem is not None and mem[0] == 'func':
+                h = mem[1]
+                env = dict(zip(h.params[1:], [self.expr(a) for a in e.args]))
+                for k in e.keywords:
+                    env[k.arg] = self.expr(k.value)
+                nd = len(h.node.args.defaults)
+                for p_, d_ in zip(h.params[len(h.params) - nd:], h.node.args.defaults):
+                    if p_ not in env:
+                        env[p_] = self.expr(d_)
+                for p_ in list(env):
+                    if isinstance(env[p_], list):
+                        env[p_] = list(env[p_])
+                sub = VecEval(self.P, h, env, self.n)
+                try:
+                    sub.block(h.node.body)
+                except Returned as ret:
+                    if ret.value == 'raise':
+                        raise
+                    return ret.value
+                return None
         if isinstance(e.func, ast.Attribute) and fn in ('self.take', 'self.data.take'):
             v = self.expr(e.args[0])
             if isinstance(v, list):
                 return Gather(v)
             raise Unsupported('take of a non-vector')
-        if isinstance(e.func, ast.Attribute) and short in ('astype', 'copy', 'ravel', 'flatten', 'tolist') and not fn.startswith(('np.', 'numpy.')):
+        if isinstance(e.func, ast.Attribute) and short in ('astype', 'copy', 'ravel', 'flatten', 'tolist') and not (isinstance(e.func.value, ast.Name) and e.func.value.id in ('np', 'numpy')):
             return self.expr(e.func.value)
-        if isinstance(e.func, ast.Attribute) and short in ('all', 'any', 'min', 'max', 'sum') and not fn.startswith(('np.', 'numpy.')):
+        if isinstance(e.func, ast.Attribute) and short in ('all', 'any', 'min', 'max', 'sum') and not (isinstance(e.func.value, ast.Name) and e.func.value.id in ('np', 'numpy')):
             v = self.expr(e.func.value)
             if isinstance(v, list):
                 if short in ('min', 'max') and not v:
@@ -393,7 +464,7 @@ class VecEval:
             return slice(*args)
         # repository helper: inline
         r = self.P.resolve_call(self.func, e)
-        if r and r[0] == 'func' and not e.keywords and len(args) == len(r[1].params):
+        if r and r[0] == 'func' and not e.keywords and len(args) == len(r[1].params) and not isinstance(r[1].node, ast.Lambda):
             sub = VecEval(self.P, r[1], dict(zip(r[1].params, args)), self.n)
             try:
                 sub.block(r[1].node.body)
